@@ -39,6 +39,8 @@ type State struct {
 	locks  []string // held lock identities (terms)
 	// bookkeeping for loop write-set collection
 	written      map[string]bool
+	writtenOld   map[string]bool // (dry runs) regions written at an object that existed before the dry run started
+	freshRef     string          // (dry runs) the object reference the next setRegion writes to, if known
 	writtenCells map[int]bool
 	dry          bool
 	dead         bool
@@ -99,6 +101,7 @@ func (st *State) clone() *State {
 		}
 	}
 	n.written = st.written
+	n.writtenOld = st.writtenOld
 	n.writtenCells = st.writtenCells
 	n.trace = append([]string(nil), st.trace...)
 	if st.shared != nil {
@@ -185,7 +188,17 @@ func (st *State) setRegion(name, sort, t string) {
 	st.heap[name] = v
 	if st.written != nil {
 		st.written[name] = true
+		if st.writtenOld != nil && !(st.freshRef != "" && st.ex.dryFresh[st.freshRef]) {
+			st.writtenOld[name] = true
+		}
 	}
+}
+
+// setRegionAt is setRegion for a write that only touches object ref of the region.
+func (st *State) setRegionAt(name, sort, t, ref string) {
+	st.freshRef = ref
+	st.setRegion(name, sort, t)
+	st.freshRef = ""
 }
 
 func (st *State) havocRegion(name string) {
@@ -202,6 +215,9 @@ func (st *State) havocRegion(name string) {
 	}
 	if st.written != nil {
 		st.written[name] = true
+		if st.writtenOld != nil {
+			st.writtenOld[name] = true
+		}
 	}
 }
 
@@ -213,7 +229,7 @@ func (st *State) readLeaf(root types.Type, path, sort, ref string) string {
 func (st *State) writeLeaf(root types.Type, path, sort, ref, v string) {
 	name := fieldRegion(root, path)
 	a := st.region(name, arr("Int", sort))
-	st.setRegion(name, arr("Int", sort), store(a, ref, v))
+	st.setRegionAt(name, arr("Int", sort), store(a, ref, v), ref)
 }
 
 // loadAt loads a value of type t stored at (root, prefix) of object ref.
@@ -413,6 +429,9 @@ func (st *State) allocRef(prefix string) string {
 	st.assume("(> " + r + " 0)")
 	st.assume(not(sel(a, r)))
 	st.setRegion("A", arr("Int", "Bool"), store(a, r, "true"))
+	if st.dry && st.ex.dryFresh != nil {
+		st.ex.dryFresh[r] = true
+	}
 	return r
 }
 
